@@ -62,7 +62,12 @@ def _solve_group(args):
     t1 = time.time()
     try:
       r = None
-      if ob.meta.get("keep_syms") and ob.expect != "refutable":
+      if (ob.meta.get("instantiate") or ob.kind == "loop-invariant") and ob.expect != "refutable":
+        # quantified invariants: goal-directed instantiation first (a proof if it succeeds)
+        ri = smt.instantiate_and_check(smt.cone_of_influence(ob.assumptions, ob.goal), ob.goal, timeout_ms=ob.meta.get("timeout_ms", timeout), seed=seed)
+        if ri["status"] == "unsat":
+          r = ri
+      if r is None and ob.meta.get("keep_syms") and ob.expect != "refutable":
         # relational obligation: everything that does not mention the few symbols that differ
         # between the two copies is made opaque first (a generalisation: proof => proof)
         abst = smt.abstract_except(list(ob.assumptions) + [ob.goal], set(ob.meta["keep_syms"]))
